@@ -35,7 +35,7 @@ REQUIRED_COUNTERS = {"quick": {"judged": 5000, "overlap:do+noise": 100, "overlap
                      "thorough": {"judged": 50000, "overlap:do+noise": 1000, "overlap:do+shift": 1000, "overlap:noise+shift": 1000,
                                   "overlap:all-three": 500, "scalar-param": 5000, "dtype:int-means-or-variances": 2000, "form:None": 1000,
                                   "form:{}": 1000, "ctor:ranges": 2000}}
-N = {"quick": {"random": 9000, "dtype": 2500, "ctor": 600}, "thorough": {"random": 140000, "dtype": 40000, "ctor": 8000}}
+N = {"quick": {"random": 9000, "dtype": 2500, "ctor": 600}, "thorough": {"random": 1000000, "dtype": 300000, "ctor": 50000}}
 EPS = 2.0 ** -52
 
 GRAPHS3 = {
